@@ -18,6 +18,10 @@ PROPS = ["Bee2V/C19/Props.lean"]
 
 CPU = open("/proc/cpuinfo").read() if os.path.exists("/proc/cpuinfo") else ""
 
+# op families that legitimately print word-size specific internals (established on the unchanged tree);
+# plugins may add theirs through `C19_WORD_SPECIFIC`, or opt out of the cross-word replay with `C19_NO_CROSS`
+WORD_SPECIFIC = {"C01": {"abW"}}
+
 
 def cfg_plan(tier):
     """(64-bit-word configs, 32-bit-word configs, bash-f platform configs, skipped)"""
@@ -80,6 +84,10 @@ def optional_areas():
         if hasattr(mod, "c19_stream"):
             h, d, fn, b = mod.c19_stream()
             out.append((f[:-3], h, d, fn, b))
+            if hasattr(mod, "C19_WORD_SPECIFIC"):
+                WORD_SPECIFIC[f[:-3]] = set(mod.C19_WORD_SPECIFIC)
+            if getattr(mod, "C19_NO_CROSS", False):
+                NO_CROSS.add(f[:-3])
     return out
 
 
@@ -210,8 +218,6 @@ def run(ctx):
              "with the reference configuration, and across word sizes; distinct_nontrivial = number of (area, configuration) pairs run")
 
 
-# op families that legitimately print word-size specific internals (established on the unchanged tree)
-WORD_SPECIFIC = {"C01": {"abW"}}
 
 
 def replay(ctx, path):
